@@ -291,7 +291,12 @@ def parse_response(buf):
     params = cr.body
     for k in ControlParametersValue._encoded_fields:
         # The body is optional: a ControlResponse without it has no parameter values
-        val = getattr(params, k.name) if params is not None else None
+        try:
+            val = getattr(params, k.name) if params is not None else None
+        except ValueError:
+            # A number outside the enumeration of the field (e.g. a FacePersistency this version
+            # does not know): report the number itself
+            val = k.get_value(params)
         if isinstance(val, memoryview):
             val = bytes(val)
         ret[k.name] = val
